@@ -9,8 +9,8 @@ tables.
   model's trusted base names (deflate = compress/flate, a RAW deflate stream).
 * `site_h1/h2/h3`: the extracted shape of the request-side condition and of the response-side
   decoding chain at each call site is `Req.Compress.shape s` — the code with fixes/C14-1..3 —
-  or `Req.Compress.Legacy.shape s` — the code before them (both are modelled; the lanes tell
-  which behaviour the tree has and class the legacy one as known findings).
+  (since the repairs 08913c8/06ab59f/39e092f landed in /repo the legacy shape is no longer
+  accepted: a regression to it breaks this obligation).
   `Req.Props.C14.interp_shape_*` give those shapes their meaning (`decideCore`, `decideH3`).
 * `sites_same_shape`: the three extracted shapes are all repaired or all legacy, and
   once repaired they are the same decision (same gzip test, guard and rewrite; they differ only
@@ -91,15 +91,15 @@ theorem gzip_flags :
     Generated.C14Facts.h3.gzipFlag = "requestedGzip" := by decide
 
 /-- **site_h1** -/
-theorem site_h1 : conv Generated.C14Facts.h1 = shape .h1 ∨ conv Generated.C14Facts.h1 = Legacy.shape .h1 := by
+theorem site_h1 : conv Generated.C14Facts.h1 = shape .h1 := by
   decide
 
 /-- **site_h2** -/
-theorem site_h2 : conv Generated.C14Facts.h2 = shape .h2 ∨ conv Generated.C14Facts.h2 = Legacy.shape .h2 := by
+theorem site_h2 : conv Generated.C14Facts.h2 = shape .h2 := by
   decide
 
 /-- **site_h3** -/
-theorem site_h3 : conv Generated.C14Facts.h3 = shape .h3 ∨ conv Generated.C14Facts.h3 = Legacy.shape .h3 := by
+theorem site_h3 : conv Generated.C14Facts.h3 = shape .h3 := by
   decide
 
 /-- What must coincide for the three sites to be one decision: the gzip test and token, the
@@ -109,10 +109,8 @@ def essence (s : SiteShape) : GzipTest × Req.Proto.Bytes × Guard × Option Boo
 
 /-- **sites_same_shape** -/
 theorem sites_same_shape :
-    (essence (conv Generated.C14Facts.h1) = essence (conv Generated.C14Facts.h2) ∧
-     essence (conv Generated.C14Facts.h2) = essence (conv Generated.C14Facts.h3)) ∨
-    (conv Generated.C14Facts.h1 = Legacy.shape .h1 ∧ conv Generated.C14Facts.h2 = Legacy.shape .h2 ∧
-     conv Generated.C14Facts.h3 = Legacy.shape .h3) := by
+    essence (conv Generated.C14Facts.h1) = essence (conv Generated.C14Facts.h2) ∧
+    essence (conv Generated.C14Facts.h2) = essence (conv Generated.C14Facts.h3) := by
   decide
 
 end Bridge.C14
